@@ -4,7 +4,7 @@
 From Coq Require Import List ZArith Bool Reals Lra Lia String Ascii.
 From T4V Require Import Base.Str Base.Scalar C06.Model
      C06.ProofsIndex C06.ProofsNumeric C06.ProofsDevelop C06.ProofsTop C06.ProofsText
-     C06.ProofsEndToEnd C06.LinkC05.
+     C06.ProofsEndToEnd C06.LinkC05 C06.ProofsTokens.
 Import ListNotations.
 
 (* ---- index order ----------------------------------------------------------
@@ -620,6 +620,21 @@ Theorem C06_parse_fill_kw_flat :
 Proof. exact parse_fill_kw_flat. Qed.
 Print Assumptions C06_parse_fill_kw_flat.
 
+(* "the code sees the flattened tokens", proved (round 3): the option text
+     kw=first more... u1 u2(t t ...) u3 ...
+   (okword: a non-empty token of characters that are neither blanks nor ( ) = nor
+   upper-case letters, not starting or ending with a colon) is tokenised by the model of
+   parse_one_cell_worker into kw, the ranges and flatten_entries; with
+   C06_fill_array_read_as_mcnp this characterises the affected TEXTS, not only token lists *)
+Theorem C06_tokenize_fill_array :
+  forall (kw first : string) (more : list string) (es : list (string * list string)),
+  okword kw -> okword first -> Forall okword more ->
+  Forall (fun e => okword (fst e) /\ Forall okword (snd e)) es ->
+  tokenize_options (kw ++ String "=" first ++ spaced more ++ render_entries es)%string
+  = (kw :: first :: more ++ flatten_entries es)%list.
+Proof. exact tokenize_fill_array. Qed.
+Print Assumptions C06_tokenize_fill_array.
+
 (* ---- non-vacuity ------------------------------------------------------------ *)
 (* a skew 2-D unit cell: planes x = +-1 (far plane first) and x + y = +-1 (near
    plane first, normal of the first one pointing into the cell) *)
@@ -678,3 +693,14 @@ Proof.
     specialize (H ("5"%string, ["0"; "1"; "0"]%string)). cbn in H.
     assert (X : ["0"; "1"; "0"]%string = []) by (apply H; tauto). discriminate X.
 Qed.
+
+(* the text of the finding's witness: rendered from its entries, tokenised to the
+   flattened tokens on which C06_array_entry_transformation_refuted computes *)
+Example C06_example_witness_text :
+  let es := [("5", []); ("5", []); ("5", ["0"; "1"; "0"])]%string in
+  ("fill" ++ String "=" "-1:1" ++ spaced ["0:0"; "0:0"] ++ render_entries es)%string
+  = "fill=-1:1 0:0 0:0 5 5 5(0 1 0)"%string /\
+  tokenize_options "fill=-1:1 0:0 0:0 5 5 5(0 1 0)"
+  = ["fill"; "-1:1"; "0:0"; "0:0"; "5"; "5"; "5"; "0"; "1"; "0"]%string /\
+  okword "-1:1" /\ okword "fill".
+Proof. cbv zeta. repeat split; reflexivity. Qed.
